@@ -10,6 +10,7 @@ from ..build import AnalysisBroken
 from ..lib_c09 import PInterp, Agg, as_obj, chain, mk_tokens, mk_hideset, strip_ids, PARAM, OTHER, cls_of
 from ..lib_c09x import (Desc, show, explore_expand, explore_subst, SubstPath, explore_subst_shared, explore_skip_arms, cut_new_token_flags,
                         creator_summaries, describe_flag, CREATORS, FRESH)
+from ..lib_c19 import run_table, describe_pair
 
 PU = 'preprocess.c'
 TU = 'tokenize.c'
@@ -36,6 +37,7 @@ def run(P, rep, tier):
     protect = part('R19.1', 'main.c:print_tokens', lambda: r_printer(P, rep))
     if protect is None:
         protect = False     # only ever makes R19.3 stricter; the run is already undecided
+    part('R19.4', 'main.c:print_tokens', lambda: r_separation(P, rep))
     part('R19.1', 'preprocess.c:join_adjacent_string_literals', lambda: r_join(P, rep))
     part('R19.2', 'tokenize.c:tokenize', lambda: r_tokenize(P, rep))
     part('R19.2', 'preprocess.c:copy_token', lambda: r_copy(P, rep))
@@ -151,6 +153,51 @@ def r_printer(P, rep):
         if v == 0:
             rep.undecided('R19.1', '%s:%s:no-%s-case' % (MU, fn, k), 'no explored path of print_tokens exercises the %s case' % k, where=where)
     return protect
+
+
+def r_separation(P, rep):
+    """the separation decision of the printer against the tokenizer, on a complete table of token spellings: whenever
+    tokenize() does not give back the two tokens A, B from their spellings written one after the other, print_tokens must
+    write white space between them although B carries neither has_space nor at_bol - on every path, i.e. whatever the other
+    fields of the two tokens (origin, hide set, file, position) are"""
+    u = P.unit(MU)
+    fn = 'print_tokens'
+    if fn not in u.functions:
+        raise AnalysisBroken('anchor %s vanished from %s' % (fn, MU))
+    rep.rule('R19.4', 'for every pair of token spellings A, B (every punctuator of the tokenizer; one word, keyword, number, character/string literal per class of first and last character) that tokenize() does not read back as the tokens A, B when they are written without white space, print_tokens writes white space between them on every path, whatever the fields other than kind and spelling hold', floor=60)
+    rep.assumptions += ['<ctype.h> classification is that of the "C" locale (glibc table layout: (*__ctype_b_loc())[c] & _ISxxx)',
+                        'R19.4 looks at pairs of neighbouring tokens (three one-character tokens that only fuse together are not covered)']
+    where = '%s:%d' % (MU, u.fn(fn).line)
+    res, info = run_table(P)
+    names = {}
+    for k, v in u.enums.items():
+        if k.startswith('TK_'):
+            names.setdefault(v, k)
+    A = Agg(rep)
+    show_ = lambda b: b.decode('utf-8', 'replace')
+    und = set()
+    for a, b, verdict, detail, ka in res:
+        if verdict == 'undecided':
+            key = '%s:%s:separation-not-followed' % (MU, fn)
+            if key not in und:
+                und.add(key)
+                rep.undecided('R19.4', key, 'the decision of print_tokens on the pair `%s` `%s` cannot be followed: %s' % (show_(a), show_(b), detail), where=where)
+            continue
+        cls = describe_pair(info, names.get(ka, 'kind%r' % ka), a, b)
+        key = '%s:%s:glue:%s' % (MU, fn, cls)
+        if verdict == 'separated':
+            A.ob('R19.4', key, True, '', where, {'example': '%s|%s' % (show_(a), show_(b)), 'glued text reads back as': detail[0]})
+        else:
+            how, trail, consulted, nmiss, npaths = detail
+            A.ob('R19.4', key, False,
+                 'print_tokens writes `%s` directly after `%s` (%s, no white space between them in the source, e.g. at the seam of a macro expansion) on %d of %d paths%s, but tokenize() reads `%s%s` back as: %s - the -E output denotes other tokens than the ones the compiler proper consumed' % (
+                     show_(b), show_(a), names.get(ka, ka), nmiss, npaths,
+                     (' (the path depends on %s, which says nothing about the spellings)' % ', '.join(consulted)) if consulted else '',
+                     show_(a), show_(b), how),
+                 where, {'example': '%s|%s' % (show_(a), show_(b)), 'path': trail, 'fields consulted': consulted})
+    A.flush()
+    rep.extra['R19.4 table'] = {'one-token spellings': info['spellings'], 'pairs': info['pairs'], 'pairs not read back': len(set((r[0], r[1]) for r in res)),
+                                'kinds converted before printing': info['converted'], 'candidates that are not one token': info['dropped']}
 
 
 def _is_eof(it, u, t):
